@@ -152,6 +152,20 @@ func GetStringParam(m map[string]interface{}, p string, required bool) (string, 
 	}
 }
 
+// getCodeParam gets the required 'code' parameter: a string, or - as for
+// the code of a rule's action - an array of lines.
+//
+// (GetStringParam glues the elements of an array together as they are,
+// which makes one line of them: a "//" comment swallows the rest of the
+// script.)
+func getCodeParam(m map[string]interface{}) (string, error) {
+	if lines, is := m["code"].([]interface{}); is {
+		return core.GetCode(lines)
+	}
+	code, _, err := GetStringParam(m, "code", true)
+	return code, err
+}
+
 // checkLocal is a little utility wrapper around Manager.Disposition.
 //
 // This function will return an error with a JSON message if the given
@@ -350,7 +364,7 @@ func (s *Service) ProcessRequest(ctx *core.Context, m map[string]interface{}, ou
 		fmt.Fprintf(out, `{"secs":%d}`, core.NowSecs())
 
 	case "/api/sys/util/js":
-		code, _, err := GetStringParam(m, "code", true)
+		code, err := getCodeParam(m)
 		bs := make(core.Bindings)
 		x, err := core.RunJavascript(ctx, &bs, nil, code)
 		if err != nil {
@@ -673,7 +687,7 @@ func (s *Service) ProcessRequest(ctx *core.Context, m map[string]interface{}, ou
 			return nil, err
 		}
 
-		code, _, err := GetStringParam(m, "code", true)
+		code, err := getCodeParam(m)
 		if err != nil {
 			return nil, err
 		}
